@@ -59,6 +59,11 @@ pub fn build(prop: &str, seed: u64, hist: u64, rng: &mut Rng, ids: &[String]) ->
                 fault_cfg.insert("dup".into(), 350);
                 fault_cfg.insert("misroute".into(), 200);
             }
+            if prop == "C12" {
+                // the order a peer has seen must survive every later run: revisit peers often
+                fault_cfg.insert("dup".into(), 300);
+                fault_cfg.insert("stale".into(), 200);
+            }
         }
         "C06" => {
             fault_cfg = pick_faults(rng, HONEST_LOSSLESS, 2);
@@ -181,6 +186,7 @@ pub fn build(prop: &str, seed: u64, hist: u64, rng: &mut Rng, ids: &[String]) ->
         "C01" if profile == "odd" => crate::script3::gen_odd(rng, np),
         "C20" if rng.chance(20) => crate::script3::gen_maps(rng, np),
         "C03" | "C07" | "C09" | "C10" | "C04" if rng.chance(5) => crate::script3::gen_maps(rng, np),
+        "C12" if rng.chance(50) => crate::script3::gen_c12(rng, np),
         "C13" if hist % 331 == 5 => crate::script3::gen_c13_limit(rng, np),
         "C13" => script::gen_c13(rng, np),
         "C11" if rng.chance(12) => crate::script3::gen_maps(rng, np),
